@@ -18,7 +18,11 @@ def atoms():
     return [M.Symbol("a"), M.Symbol("None"), M.Symbol("True"), M.Symbol("."), M.Symbol("..."), M.Symbol("quote"), M.Symbol("unquote"), M.Keyword("k"), M.Keyword(""), M.Integer(0),
             M.Integer(-(2 ** 70)), M.Float(1.5), M.Float(float("nan")), M.Float(float("-inf")), M.Float(-0.0), M.Complex(2j), M.String(""), M.String("s\n\"", brackets=None),
             M.String("b s", brackets=""), M.String("x", brackets="del"), M.Bytes(b"\x00q"), fs, fsb, M.Expression([]), M.List([]), M.Tuple([]), M.Dict([]), M.Set([]),
-            M.FComponent([M.Symbol("y")], conversion="a"), M.FString([]), M.FString([M.String("{}")])]
+            M.FComponent([M.Symbol("y")], conversion="a"), M.FString([]), M.FString([M.String("{}")]),
+            # every attribute combination: conversion with and without the source text, empty-string delimiters, models as read
+            M.FComponent([M.Symbol("p")], conversion="r", expression="p"), M.FComponent([M.Symbol("p"), M.String("x")], conversion=None, expression=" p "),
+            M.FString([M.String("q")], brackets=""), M.FString([M.FComponent([M.Symbol("z")], conversion="s", expression="z")], brackets="f"),
+            hy.read('f"a{p !r}b"'), hy.read('f"{ foo = }"'), hy.read('f"{x = !s :>{w}}"'), hy.read("#[f-x[{y !a} ]]f-x]"), hy.read('#[[pl ain]]'), hy.read('b"by"')]
 
 
 KINDS = ["atom", "expr", "list", "tuple", "dict", "set", "expr-in-list", "quote-form", "unquote-form", "deep"]
